@@ -345,6 +345,14 @@ def gen_ops(tier, rng):
         for x in (1, 0x80, 0x8000, 0xFFFF, rng.randrange(1, 1 << 16)):
             yield mk(n, crcxor=x, crc=(1, 1))
         yield mk(n, crcxor=0x1021, crc=(0, 1))
+    # the announced checksum is a near miss of the true one: byte-swapped, bit-reversed, complemented, off by one
+    for n in (3, 7, 20, 50, 889):
+        dtok = f"r{rng.randrange(1 << 30)}:{n}"
+        c = crc16(parse_data(dtok))
+        near = {((c >> 8) | ((c & 0xFF) << 8)), int(f"{c:016b}"[::-1], 2), c ^ 0xFFFF, (c + 1) & 0xFFFF, (c - 1) & 0xFFFF,
+                c >> 1, (c << 1) & 0xFFFF}
+        for w in sorted(near - {c}):
+            yield mk(n, crcxor=c ^ w, crc=(1, 1), data=dtok)
     for b in range(256):
         yield mk(30, endb0=b, crc=(1, 1))
         yield mk(33, endb0=b, crc=CRCS[b % 4])
